@@ -145,6 +145,7 @@ fn classify_inputs(w: &[Input], ns: u32, base: &str) -> String {
     if competing_dynamic_arrays(w, &a) { return "competing_dynamic_arrays".into(); }
     if unfaithful_print(w, ns) { return "formula_print_not_faithful".into(); }
     if spill_ref_before_anchor(w, &a) { return "spill_ref_before_anchor".into(); }
+    if circular_spill_dependency(w, &a) { return "circular_spill_dependency".into(); }
     if spill_depends_on_later_spill(w, &a) { return "spill_depends_on_later_spill".into(); }
     if direct_read_of_later_spill(w, &a) { return "direct_read_of_later_spill".into(); }
     if a.has_cycle() { return if a.absorbed_cycle() { "absorbed_cycle".into() } else { "cycle_order".into() }; }
